@@ -19,7 +19,8 @@ def gen_stamps(rng, a, i):
     for t in (a, i):
         if t:
             gaps += [t, t - 1, t + 1, t]
-    ts, cur = [], rng.randint(0, 5)
+    # mostly small timestamps; sometimes epoch-like ones that cross 2**31 and 2**53 (millisecond / nanosecond clocks)
+    ts, cur = [], (rng.randint(0, 5) if rng.random() < 0.85 else rng.choice([2 ** 31 - 4, 2 ** 32 - 3, 2 ** 53 - 5, 10 ** 12, 1700000000000000000]))
     for _ in range(n):
         cur += rng.choice(gaps)
         ts.append(cur)
@@ -58,6 +59,8 @@ def generate(rng, tier):
             trace.append(q.pop(0))
             queues = [x for x in queues if x]
         ctx = rng.choice(['top', 'top', 'top', 'group', 'datetime'])
+        if ctx == 'datetime' and any(dec(x)[0] > 10 ** 9 for _k, its_ in lifetimes for x in its_):
+            ctx = 'top'      # timedelta(seconds=...) cannot hold nanosecond-clock values
         core = [['time_split', ['nth', 0], a, i, closing, incl, [['tap', 1]] + inner]]
         ast = [['group', ['comp', ['nth', 0], ['mod', 2]], core]] if ctx == 'group' else core
         cases.append({'ast': ast, 'trace': trace, 'cfg': [a, i, closing is not None, incl], 'ctx': ctx})
